@@ -675,6 +675,48 @@ class Inliner:
             h, recv = self._resolve(mname, cls_name, st.value)
             if h is not None and not h.is_gen:
                 return self._expand(h, st.value, recv, 'assign', targets=st.targets)
+        # `return list(gen_helper(..))` / `x = list(gen_helper(..))`: the helper's body with every `yield v` turned into `acc.append(v)`
+        if isinstance(st, (ast.Return, ast.Assign)) and isinstance(st.value, ast.Call) and isinstance(st.value.func, ast.Name) and st.value.func.id in ('list', 'tuple') \
+                and len(st.value.args) == 1 and not st.value.keywords and isinstance(st.value.args[0], ast.Call) \
+                and (isinstance(st, ast.Return) or (len(st.targets) == 1 and isinstance(st.targets[0], ast.Name))):
+            h, recv = self._resolve(mname, cls_name, st.value.args[0])
+            if h is not None and h.is_gen and h.tail_ok:
+                exp = self._expand(h, st.value.args[0], recv, 'gen')
+                if exp is not None and not any(isinstance(n, ast.Yield) and not isinstance(getattr(n, '_p_', None), ast.Expr) and False for s_ in exp for n in ast.walk(s_)):
+                    self.counter += 1
+                    acc = f'_acc{self.counter}'
+                    ok = [True]
+
+                    class Y(ast.NodeTransformer):
+                        def visit_FunctionDef(self_, n):
+                            return n
+                        visit_Lambda = visit_FunctionDef
+
+                        def visit_Expr(self_, n):
+                            if isinstance(n.value, ast.Yield):
+                                v = n.value.value if n.value.value is not None else ast.Constant(value=None)
+                                call = ast.Call(func=ast.Attribute(value=ast.Name(id=acc, ctx=ast.Load()), attr='append', ctx=ast.Load()), args=[v], keywords=[])
+                                return ast.copy_location(ast.Expr(value=ast.copy_location(call, n)), n)
+                            if isinstance(n.value, ast.YieldFrom):
+                                call = ast.Call(func=ast.Attribute(value=ast.Name(id=acc, ctx=ast.Load()), attr='extend', ctx=ast.Load()), args=[n.value.value], keywords=[])
+                                return ast.copy_location(ast.Expr(value=ast.copy_location(call, n)), n)
+                            return n
+
+                        def visit_Yield(self_, n):
+                            ok[0] = False          # a yield used as an expression
+                            return n
+                        visit_YieldFrom = visit_Yield
+                    new_body = [Y().visit(s_) for s_ in exp]
+                    if ok[0]:
+                        init = ast.copy_location(ast.Assign(targets=[ast.Name(id=acc, ctx=ast.Store())], value=ast.List(elts=[], ctx=ast.Load())), st)
+                        res = ast.Name(id=acc, ctx=ast.Load())
+                        if st.value.func.id == 'tuple':
+                            res = ast.Call(func=ast.Name(id='tuple', ctx=ast.Load()), args=[res], keywords=[])
+                        last = ast.Return(value=res) if isinstance(st, ast.Return) else ast.Assign(targets=st.targets, value=res)
+                        out_ = [init] + new_body + [ast.copy_location(last, st)]
+                        for s_ in out_:
+                            ast.fix_missing_locations(s_)
+                        return out_
         # `x = yield from gen_helper(..)`: the helper's yields stay in place, its return value is bound to x
         if isinstance(st, ast.Assign) and isinstance(st.value, ast.YieldFrom) and isinstance(st.value.value, ast.Call):
             h, recv = self._resolve(mname, cls_name, st.value.value)
@@ -685,7 +727,31 @@ class Inliner:
             h, recv = self._resolve(mname, cls_name, st.iter)
             if h is not None and h.is_gen and h.tail_ok:
                 ys = [n for s_ in h.body for n in ast.walk(s_) if isinstance(n, (ast.Yield, ast.YieldFrom))]
-                body_ok = not any(isinstance(n, (ast.Break, ast.Continue)) and not _inside_inner_loop(n, st) for b_ in st.body for n in ast.walk(b_))
+                jumps = [n for b_ in st.body for n in ast.walk(b_) if isinstance(n, (ast.Break, ast.Continue)) and not _inside_inner_loop(n, st)]
+                body_ok = not jumps
+                if jumps and len(ys) == 1:
+                    # `continue` of the consumer is the next step of the helper's own loop when the yield is the last thing that loop does; `break` abandons the
+                    # generator, which is leaving the helper's loop when nothing follows it in the helper
+                    def find_loop(stmts, chain):
+                        for s_ in stmts:
+                            if isinstance(s_, ast.Expr) and s_.value is ys[0]:
+                                return chain, stmts
+                            for field in ('body', 'orelse', 'finalbody'):
+                                sub = getattr(s_, field, None)
+                                if isinstance(sub, list) and sub and isinstance(sub[0], ast.stmt) and not isinstance(s_, DEFS):
+                                    r_ = find_loop(sub, chain + [s_] if isinstance(s_, LOOPS) and field == 'body' else chain + [None] * 0)
+                                    if r_ is not None:
+                                        return r_
+                        return None
+                    loc = find_loop(h.body, [])
+                    if loc is not None and len(loc[0]) == 1:
+                        hloop, holder = loc[0][0], loc[1]
+                        y_last = holder is hloop.body and isinstance(holder[-1], ast.Expr) and holder[-1].value is ys[0]
+                        tail = [x for x in h.body if not (isinstance(x, ast.Return) and (x.value is None or (isinstance(x.value, ast.Constant) and x.value.value is None)))]
+                        loop_last = bool(tail) and tail[-1] is hloop and not hloop.orelse
+                        has_cont = any(isinstance(j, ast.Continue) for j in jumps)
+                        has_brk = any(isinstance(j, ast.Break) for j in jumps)
+                        body_ok = (not has_cont or y_last) and (not has_brk or loop_last)
                 if len(ys) == 1 and isinstance(ys[0], ast.Yield) and ys[0].value is not None and body_ok:
                     exp = self._expand(h, st.iter, recv, 'gen')
                     if exp is not None:
